@@ -150,8 +150,9 @@ def _callsite(depth=2):
 class Source(object):
     """Stands in for the `random` module (and for numpy.random via NpRandom)."""
 
-    def __init__(self, script=(), delays=None, max_branches=400, fold=True, max_exp=None):
+    def __init__(self, script=(), delays=None, max_branches=400, fold=True, max_exp=None, decider=None):
         self.max_exp = max_exp
+        self.decider = decider   # callable(kind, info, pop, probs) -> branch index, used beyond the script
         self.script = list(script)
         self.pos = 0
         self.tape = []      # every call: (kind, info)
@@ -169,8 +170,8 @@ class Source(object):
         if i < len(self.script):
             c = self.script[i]
         else:
-            c = 0
-            self.script.append(0)
+            c = 0 if self.decider is None else self.decider(kind, info, pop, probs)
+            self.script.append(c)
         if c >= len(probs):
             raise Unmodelled("script index out of range: the decision tree changed between re-executions")
         self.pos += 1
@@ -219,7 +220,7 @@ class Source(object):
             raise ValueError("Sample larger than population or is negative")
         out = []
         for j in range(k):
-            i = self._branch("sample", [1.0 / len(pop)] * len(pop), {"n": len(pop), "j": j, "k": k})
+            i = self._branch("sample", [1.0 / len(pop)] * len(pop), {"n": len(pop), "j": j, "k": k}, pop=tuple(_freeze(x) for x in pop))
             out.append(pop.pop(i))
         return out
 
@@ -309,12 +310,12 @@ class Leaf(object):
         self.toodeep = False
 
 
-def run_scripted(fn, script, delays=None, max_branches=400, fold=True, max_exp=None):
+def run_scripted(fn, script, delays=None, max_branches=400, fold=True, max_exp=None, decider=None):
     """Run fn() with EoN.simulation.random / numpy.random replaced by the
     scripted source.  fn takes no arguments and returns the observation."""
     import EoN.simulation as sim
     import numpy as np
-    src = Source(script, delays=delays, max_branches=max_branches, fold=fold, max_exp=max_exp)
+    src = Source(script, delays=delays, max_branches=max_branches, fold=fold, max_exp=max_exp, decider=decider)
     old_r = sim.random
     old_np = sim.np
 
